@@ -24,6 +24,9 @@ def base_env(extra=None):
     env = dict(os.environ)
     env.update(MPI_ENV)
     env.setdefault("OMP_NUM_THREADS", "1")
+    # a harness process started without mpiexec is an MPI singleton; by default Open MPI forks a helper daemon for it, which now and then
+    # fails to start on a busy machine ("Unable to start a daemon on the local node") - nothing in the workloads needs that daemon
+    env.setdefault("OMPI_MCA_ess_singleton_isolated", "1")
     if extra:
         env.update(extra)
     return env
@@ -65,6 +68,7 @@ def run_chunk(vh, driver, seed, tier, lo, hi, wdir, tag, env, per_case_timeout, 
     t0 = time.time()
     cur = lo
     attempt = 0
+    startup_failures = 0
     while cur < hi:
         out = os.path.join(wdir, "%s.%d.%d.out" % (tag, cur, attempt))
         err = os.path.join(wdir, "%s.%d.%d.err" % (tag, cur, attempt))
@@ -93,6 +97,11 @@ def run_chunk(vh, driver, seed, tier, lo, hi, wdir, tag, env, per_case_timeout, 
             pass
         if ended and rc == 0:
             break
+        if open_case is None and not cases and not timed_out and startup_failures < 3:
+            # died before the first case began (MPI start-up failure on a loaded machine, fork failure...): try again a few times
+            startup_failures += 1
+            time.sleep(2.0 * startup_failures)
+            continue
         if open_case is None:
             # died outside a case (start-up / shutdown): harness failure, do not loop forever
             if cases and cases[-1]["case"] + stride >= hi and not timed_out:
@@ -122,7 +131,11 @@ def run_chunk(vh, driver, seed, tier, lo, hi, wdir, tag, env, per_case_timeout, 
 
 
 def ncases(vh, driver, tier, env):
-    p = subprocess.run([vh, driver, "--tier", tier, "--ncases"], stdout=subprocess.PIPE, stderr=subprocess.PIPE, env=env)
+    for attempt in range(4):
+        p = subprocess.run([vh, driver, "--tier", tier, "--ncases"], stdout=subprocess.PIPE, stderr=subprocess.PIPE, env=env)
+        if p.returncode == 0:
+            break
+        time.sleep(1.0 + attempt)
     if p.returncode != 0:
         raise RuntimeError("vh --ncases failed: %s" % p.stderr.decode(errors="replace")[-2000:])
     return int(p.stdout.decode().strip().splitlines()[-1])
